@@ -16,7 +16,7 @@ RULE = ('every single-actor scenario family of the other checks (C01 shell chunk
         'packet logs must be byte-for-byte equal, results equal, exception types equal, transport call sequences (op, size, timeout) equal. '
         'non-trivial = the pair contains a filesync transfer or a fault; distinct = event-log digests of the sync run')
 ASSUMPTIONS = ['virtual end times are reported, not asserted', 'TCP pairs compare delivered bytes and results, not call sequences (the transports are structured differently by design)']
-EXPECT_PROBES = {'all': ['c16_family_C01', 'c16_family_C05', 'c16_family_C07', 'c16_family_C10', 'c16_family_C11', 'c16_family_C12', 'c16_family_C13', 'c16_family_C15', 'c16_family_tcp', 'c16_fault_pair']}
+EXPECT_PROBES = {'all': ['c16_family_C01', 'c16_family_C05', 'c16_family_C07', 'c16_family_C10', 'c16_family_C11', 'c16_family_C12', 'c16_family_C13', 'c16_family_C15', 'c16_family_tcp', 'c16_fault_pair', 'junk_checksum_word_on_empty_packet']}
 OWN = ('packets-differ', 'results-differ', 'exceptions-differ', 'calls-differ', 'termination-differs')
 FAMILIES = [('C01', C01), ('C03', C03), ('C04', C04), ('C05', C05), ('C07', C07), ('C08', C08), ('C09', C09), ('C10', C10), ('C11', C11), ('C12', C12), ('C13', C13), ('C15', C15), ('tcp', C18)]
 
@@ -70,6 +70,8 @@ def generate(seed, tier):
             name, mod = 'C04', C04
             sub = mod.generate(g.int(0, 1 << 60), tier)
             scn = copy.deepcopy(sub['scn'])
+    if g.chance(0.08):
+        scn['device']['junk_check_on_empty'] = g.pick([1, 0xDEADBEEF, 0xFFFFFFFF])
     for op in scn['actors'][0] + scn.get('post', []):
         if op['op'] == 'push' and not op.get('mtime'):
             op['mtime'] = 4321      # 'now' is not comparable between two runs
